@@ -35,9 +35,12 @@ Definition load_claims (i : ident) (unmarshal_ok : ckind -> Z -> bool) : option 
     else if (k =? kind_name KUser)%string then typed_loader KUser v unmarshal_ok
     else if (k =? kind_name KActivation)%string then typed_loader KActivation v unmarshal_ok
     else if (k =? kind_name KAuthRequest)%string then
-      (if unmarshal_ok KAuthRequest v then Some (KAuthRequest, v) else None)
+      (* no version-1 form: the claims' own kind (nats section) must be the dispatched one *)
+      (if unmarshal_ok KAuthRequest v && (id_nats_type i =? kind_name KAuthRequest)%string
+       then Some (KAuthRequest, v) else None)
     else if (k =? kind_name KAuthResponse)%string then
-      (if unmarshal_ok KAuthResponse v then Some (KAuthResponse, v) else None)
+      (if unmarshal_ok KAuthResponse v && (id_nats_type i =? kind_name KAuthResponse)%string
+       then Some (KAuthResponse, v) else None)
     else if (k =? "cluster")%string then None
     else if (k =? "server")%string then None
     else (if unmarshal_ok KGeneric v then Some (KGeneric, -1) else None).
